@@ -109,6 +109,9 @@ def events(ctx):
     for p in crc_zero_prefix_tcs(rng):
         for via in ("ctor", "setter", "bytearray"):
             yield record("tc.rt", {"p": p, "sfx": [], "via": via})
+    # the exact limit of the data field (65 529 octets of application data) and one octet more, in every tier
+    for n in (65529, 65530):
+        yield record("tc.rt", {"p": rand_params(rng, n), "sfx": [], "via": "ctor"})
     for n in ctx.q(SIZES_Q, SIZES_T):
         for via in ("ctor", "sph", "composite"):
             yield record("tc.rt", {"p": rand_params(rng, n), "sfx": [], "via": via})
